@@ -12,6 +12,7 @@ import (
 	"github.com/getkin/kin-openapi/openapi2"
 	"github.com/getkin/kin-openapi/openapi3"
 	"github.com/oasdiff/yaml"
+	yaml3 "github.com/oasdiff/yaml3"
 	"pgregory.net/rapid"
 
 	"verif/internal/h"
@@ -242,6 +243,40 @@ func check(c Case) (o h.Outcome) {
 		o.Fail(fmt.Sprintf("R2:v%d:yaml:%s", c.Version, sigOf(p, cls)), "R2 (YAML leg): %s at %s\njson=%s\nyaml=%s\nafter=%s", cls, p, j1, y1, j3)
 		return
 	}
+	// R2 again through the other YAML writer: the types' own MarshalYAML methods (the first one goes
+	// through their JSON form)
+	if c.Version != 3 {
+		// only the OpenAPI 3 types have MarshalYAML methods; the Swagger 2 types are written through
+		// their JSON form (the first writer), which is also what the repository's own tests do
+		goto r3
+	}
+	{
+		var y3 []byte
+		if !o.Guarded("yaml3.Marshal", func() { y3, err = yaml3.Marshal(doc) }) {
+			return
+		}
+		if err != nil {
+			o.Fail(fmt.Sprintf("R2:v%d:yaml3-marshal-error", c.Version), "yaml3.Marshal of a parsed document fails: %v\ndoc=%s", err, c.Doc)
+			return
+		}
+		var doc5 any
+		if !o.Guarded("reload(yaml3)", func() { doc5, err = cd.load(y3) }) {
+			return
+		}
+		if err != nil {
+			o.Fail(fmt.Sprintf("R2:v%d:yaml3-reload-error", c.Version), "the YAML written through MarshalYAML does not parse again: %v\nyaml=%s", err, y3)
+			return
+		}
+		var j5 []byte
+		if !o.Guarded("json.Marshal(5)", func() { j5, err = cd.marshal(doc5) }) {
+			return
+		}
+		if p, cls := firstDiff(J1, jv.Parse(string(j5)), ""); p != "" {
+			o.Fail(fmt.Sprintf("R2:v%d:yaml3:%s", c.Version, sigOf(p, cls)), "R2 (YAML leg, MarshalYAML writer): %s at %s\njson=%s\nyaml=%s\nafter=%s", cls, p, j1, y3, j5)
+			return
+		}
+	}
+r3:
 	// R3: the same document written as YAML text (from the raw map, not through kin types)
 	yIn, yerr := yaml.Marshal(D)
 	if yerr == nil {
